@@ -16,7 +16,7 @@
 static int trial, scen;
 static _Atomic long ticker_count;
 static _Atomic int stop_ticker;
-static vp_counter_t *c_trials, *c_bytes, *c_calls[12], *c_short, *c_blocked_calls, *c_nb_calls, *c_invalid_calls, *c_close_wakes, *c_accepts, *c_dgrams, *c_scen[12];
+static vp_counter_t *c_trials, *c_bytes, *c_calls[12], *c_short, *c_blocked_calls, *c_nb_calls, *c_invalid_calls, *c_close_wakes, *c_accepts, *c_dgrams, *c_scen[16];
 static const char* const call_names[12] = {"io_read", "io_recv", "io_readv", "io_recvfrom", "io_recvmsg", "io_write", "io_send", "io_writev", "io_sendto", "io_sendmsg", "io_accept", "io_connect"};
 
 // errno is thread-local and a fiber may come back from a blocking call on another kernel thread, while the compiler
@@ -679,6 +679,133 @@ static void scen_opposite(fb_slot_t* me, uint64_t* rng) {
   close(sv[1]);
 }
 
+// ---- scenario 8: assorted calls that the other scenarios do not reach
+static int mw_fd;
+static void* mw_writer(void* a) {  // blocks with a full buffer until another fiber closes the descriptor
+  fb_slot_t* s = (fb_slot_t*)a;
+  static char big[300000];
+  size_t off = 0;
+  for (;;) {
+    ssize_t r = -1;
+    FB_BLOCKING(s, "C08 write (descriptor closed by another fiber while blocked)", r = write(mw_fd, big + off, sizeof(big) - off));
+    if (r <= 0) break;  // error return once the descriptor is gone
+    off += (size_t)r;
+    if (off >= sizeof(big)) {
+      vp_violation("C08", "io:write-overcount", "trial %d: 300000 bytes were accepted by a 4 KB socket whose peer never reads", trial);
+      break;
+    }
+  }
+  vp_count("io_writers_woken_by_close", 1);
+  return NULL;
+}
+static void scen_misc(fb_slot_t* me, uint64_t* rng) {
+  // (a) UDP over loopback with explicit addresses: sendto / recvfrom / recvmsg, blocking receive before the datagram exists
+  int a = socket(AF_INET, SOCK_DGRAM, 0), b = socket(AF_INET, SOCK_DGRAM, 0);
+  struct sockaddr_in aa, ba, from;
+  memset(&aa, 0, sizeof(aa));
+  aa.sin_family = AF_INET;
+  aa.sin_addr.s_addr = htonl(INADDR_LOOPBACK);
+  ba = aa;
+  socklen_t al = sizeof(aa), bl = sizeof(ba), fl = sizeof(from);
+  if (a >= 0 && b >= 0 && !bind(a, (struct sockaddr*)&aa, sizeof(aa)) && !bind(b, (struct sockaddr*)&ba, sizeof(ba)) &&
+      !getsockname(a, (struct sockaddr*)&aa, &al) && !getsockname(b, (struct sockaddr*)&ba, &bl)) {
+    int i;
+    for (i = 0; i < 20; ++i) {
+      uint32_t out[2] = {(uint32_t)i, (uint32_t)i * 7 + 1}, in[2] = {0, 0};
+      ssize_t w = -1, r = -1;
+      vp_errno_clear();
+      FB_BLOCKING(me, "C08 sendto(udp)", w = sendto(a, out, sizeof(out), 0, (struct sockaddr*)&ba, sizeof(ba)));
+      eagain_check("sendto", 1, w, vp_errno());
+      fl = sizeof(from);
+      vp_errno_clear();
+      if (i & 1) {
+        FB_BLOCKING(me, "C08 recvfrom(udp)", r = recvfrom(b, in, sizeof(in), 0, (struct sockaddr*)&from, &fl));
+      } else {
+        struct iovec iv = {in, sizeof(in)};
+        struct msghdr mh;
+        memset(&mh, 0, sizeof(mh));
+        mh.msg_iov = &iv;
+        mh.msg_iovlen = 1;
+        mh.msg_name = &from;
+        mh.msg_namelen = sizeof(from);
+        FB_BLOCKING(me, "C08 recvmsg(udp)", r = recvmsg(b, &mh, 0));
+      }
+      eagain_check("recvfrom/recvmsg", 1, r, vp_errno());
+      if (w != (ssize_t)sizeof(out) || r != (ssize_t)sizeof(in) || in[0] != out[0] || in[1] != out[1] || from.sin_port != aa.sin_port)
+        vp_violation("C08", "io:udp-roundtrip", "trial %d: udp datagram %d: sent %zd, received %zd (errno %d), payload %u/%u, source port %u vs %u", trial, i, w, r, vp_errno(),
+                     in[0], in[1], ntohs(from.sin_port), ntohs(aa.sin_port));
+      vp_count("io_udp_roundtrips", 1);
+    }
+  }
+  if (a >= 0) close(a);
+  if (b >= 0) close(b);
+  // (b) non-blocking send on a full socket: EAGAIN at once, no context switch (MSG_DONTWAIT and O_NONBLOCK)
+  int sv[2];
+  if (!socketpair(AF_UNIX, SOCK_STREAM, 0, sv)) {
+    shrink(sv[0]);
+    shrink(sv[1]);
+    char chunk[8192];
+    memset(chunk, 'q', sizeof(chunk));
+    const int via_flag = (int)(vp_rand(rng) & 1);
+    if (!via_flag) fcntl(sv[0], F_SETFL, fcntl(sv[0], F_GETFL, 0) | O_NONBLOCK);
+    int k;
+    ssize_t r = 0;
+    const uint64_t sw = vp_self_switches();
+    for (k = 0; k < 200; ++k) {
+      vp_errno_clear();
+      r = via_flag ? send(sv[0], chunk, sizeof(chunk), MSG_DONTWAIT | MSG_NOSIGNAL) : write(sv[0], chunk, sizeof(chunk));
+      if (r < 0) break;
+    }
+    const int err = vp_errno();
+    if (vp_self_switches() != sw)
+      vp_violation("C08", "io:nonblocking-call-blocked", "trial %d: a non-blocking %s on a filling socket suspended the calling fiber", trial, via_flag ? "send(MSG_DONTWAIT)" : "write(O_NONBLOCK)");
+    else if (!(r < 0 && (err == EAGAIN || err == EWOULDBLOCK)))
+      vp_violation("C08", "io:nonblocking-result", "trial %d: 200 non-blocking 8 KB writes to a 4 KB socket never reported EAGAIN (last result %zd, errno %d)", trial, r, err);
+    vp_add(c_nb_calls, 1);
+    // (c) a writer blocked on a full buffer is resumed with an error when the descriptor is closed
+    if (via_flag) {
+      mw_fd = sv[0];
+      fb_slot_t* w = fb_spawn(mw_writer, NULL);
+      usleep(4000);
+      close(sv[0]);
+      FB_BLOCKING(me, "C08 fiber_join(writer entitled to return after close)", fiber_join(w->fiber, NULL));
+    } else {
+      close(sv[0]);
+    }
+    close(sv[1]);
+  }
+  // (d) non-blocking connect returns at once (EINPROGRESS or success) and can be completed later
+  int ls = socket(AF_INET, SOCK_STREAM, 0);
+  struct sockaddr_in la;
+  memset(&la, 0, sizeof(la));
+  la.sin_family = AF_INET;
+  la.sin_addr.s_addr = htonl(INADDR_LOOPBACK);
+  socklen_t ll = sizeof(la);
+  if (ls >= 0 && !bind(ls, (struct sockaddr*)&la, sizeof(la)) && !listen(ls, 4) && !getsockname(ls, (struct sockaddr*)&la, &ll)) {
+    int c = socket(AF_INET, SOCK_STREAM, 0);
+    int one = 1;
+    ioctl(c, FIONBIO, &one);
+    const uint64_t sw = vp_self_switches();
+    vp_errno_clear();
+    const int r = connect(c, (struct sockaddr*)&la, sizeof(la));
+    const int err = vp_errno();
+    if (vp_self_switches() != sw) vp_violation("C08", "io:nonblocking-call-blocked", "trial %d: connect on a socket in non-blocking mode suspended the calling fiber", trial);
+    if (!(r == 0 || (r < 0 && err == EINPROGRESS))) vp_violation("C08", "io:nonblocking-result", "trial %d: non-blocking connect returned %d (errno %d)", trial, r, err);
+    struct sockaddr_in peer;
+    socklen_t pl = sizeof(peer);
+    int srv = -1;
+    vp_errno_clear();
+    FB_BLOCKING(me, "C08 accept(with address)", srv = accept(ls, (struct sockaddr*)&peer, &pl));
+    eagain_check("accept", 1, srv, vp_errno());
+    if (srv < 0 || peer.sin_family != AF_INET) vp_violation("C08", "io:accept-failed", "trial %d: accept with an address buffer returned %d (errno %d, family %d)", trial, srv, vp_errno(), peer.sin_family);
+    if (srv >= 0) close(srv);
+    close(c);
+    vp_add(c_calls[10], 1);
+    vp_add(c_calls[11], 1);
+  }
+  if (ls >= 0) close(ls);
+}
+
 static void* root(void* x) {
   (void)x;
   const int trials = (int)vp_param("trials", 14);
@@ -694,14 +821,14 @@ static void* root(void* x) {
   c_close_wakes = vp_counter("io_readers_woken_by_close");
   c_accepts = vp_counter("io_connections_accepted_with_several_acceptors");
   c_dgrams = vp_counter("io_datagrams_with_several_receivers");
-  static const char* const sn[8] = {"io_scen_streams", "io_scen_eof", "io_scen_nonblocking", "io_scen_invalid_fd", "io_scen_close_wakes", "io_scen_many_waiters", "io_scen_dead_port", "io_scen_opposite_directions"};
-  for (i = 0; i < 8; ++i) c_scen[i] = vp_counter(sn[i]);
+  static const char* const sn[9] = {"io_scen_streams", "io_scen_eof", "io_scen_nonblocking", "io_scen_invalid_fd", "io_scen_close_wakes", "io_scen_many_waiters", "io_scen_dead_port", "io_scen_opposite_directions", "io_scen_misc_udp_nonblocking_send_connect"};
+  for (i = 0; i < 9; ++i) c_scen[i] = vp_counter(sn[i]);
   uint64_t rng = vp_mix(vp_cfg.seed, 808);
   fb_slot_t* me = NULL;
   for (trial = 0; trial < trials; ++trial) {
     fb_slots_reset();
     me = fb_slot_new();
-    scen = only >= 0 ? only : (int)(vp_rand(&rng) % 8);
+    scen = only >= 0 ? only : (int)(vp_rand(&rng) % 9);
     vp_add(c_scen[scen], 1);
     switch (scen) {
       case 0: scen_streams(&rng); break;
@@ -711,7 +838,8 @@ static void* root(void* x) {
       case 4: scen_close_wakes(&rng); break;
       case 5: scen_many_waiters(&rng); break;
       case 6: scen_dead_port(me); break;
-      default: scen_opposite(me, &rng); break;
+      case 7: scen_opposite(me, &rng); break;
+      default: scen_misc(me, &rng); break;
     }
     atomic_store(&me->finished, 1);
     vp_sig(vp_mix(((uint64_t)scen << 20) | (uint64_t)vp_cfg.threads, (uint64_t)vp_get(c_bytes) * 3 + (uint64_t)vp_get(c_blocked_calls)));
